@@ -237,6 +237,8 @@ func oracleC13(c *oracleCtx) {
 	c13Tolerant(c, "join", "a = 1;\nb = 2;\n", "a = 1 b = 2;\n", 5)
 	c13Tolerant(c, "truncate", "function f() {\na = 1;\n}\n", "function f() {\na = 1;\n", 22)
 	c13SmartLines(c, "a = 1\n(b)(c)\n[d].k\n", "a = 1\n;(b)(c)\n;[d].k\n")
+	c13SmartLines(c, "setup() // prepare\r\n(function() { a; })()\r\n[d].k // x\r\n", "setup() // prepare\r\n;(function() { a; })()\r\n;[d].k // x\r\n")
+	c13SmartLines(c, "total = a + b\n(function() { a; })()\nn = -a\n[b].k\n", "total = a + b\n;(function() { a; })()\nn = -a\n;[b].k\n")
 	n := c.n(3000, 120000)
 	for i := 0; i < n && !c.expired(); i++ {
 		switch c.r.Intn(10) {
@@ -293,6 +295,13 @@ func oracleC13(c *oracleCtx) {
 			prog := jsgen.GenProgram(c.r, o)
 			var sm, df strings.Builder
 			prevSimple := false
+			eol, cmt := "\n", ""
+			if c.r.Intn(3) == 0 { // Windows line endings
+				eol = "\r\n"
+			}
+			if c.r.Intn(3) == 0 { // a trailing comment on every line
+				cmt = " // note"
+			}
 			for k, st := range prog.Kids {
 				var txt string
 				if c.r.Intn(3) == 0 {
@@ -307,8 +316,8 @@ func oracleC13(c *oracleCtx) {
 					simple = true
 				}
 				if k > 0 {
-					sm.WriteString("\n")
-					df.WriteString("\n")
+					sm.WriteString(cmt + eol)
+					df.WriteString(cmt + eol)
 					if prevSimple && (txt[0] == '(' || txt[0] == '[') {
 						df.WriteString(";")
 					}
@@ -317,8 +326,8 @@ func oracleC13(c *oracleCtx) {
 				df.WriteString(txt)
 				prevSimple = simple
 			}
-			sm.WriteString("\n")
-			df.WriteString("\n")
+			sm.WriteString(cmt + eol)
+			df.WriteString(cmt + eol)
 			c13SmartLines(c, sm.String(), df.String())
 			c.count(sm.String())
 		}
